@@ -20,6 +20,9 @@ use nom_derive::*;
 use serde::Serialize;
 
 use std::collections::BTreeMap;
+#[cfg(netflow_parser_verif)]
+use crate::verif_hooks::HashMap;
+#[cfg(not(netflow_parser_verif))]
 use std::collections::HashMap;
 
 const TEMPLATE_ID: u16 = 0;
